@@ -407,12 +407,12 @@ func (server *SugarDB) createDatabase(database int) {
 }
 
 func (server *SugarDB) getState() map[int]map[string]interface{} {
-	// Wait unit there's no state mutation or copy in progress before starting a new copy process.
-	for {
-		if !server.stateCopyInProgress.Load() && !server.stateMutationInProgress.Load() {
-			server.stateCopyInProgress.Store(true)
-			break
-		}
+	// Wait until there's no other copy in progress, claim the copy, then wait for the write
+	// commands that are already running to finish (new ones see the flag and hold back).
+	for !server.stateCopyInProgress.CompareAndSwap(false, true) {
+		verifhook.Spin("getState.wait")
+	}
+	for server.stateMutations.Load() != 0 {
 		verifhook.Spin("getState.wait")
 	}
 	verifhook.Note("statecopy.begin")
